@@ -1398,5 +1398,106 @@ theorem c01f_indepT (K : Consts ℝ) (A : Arith ℝ) (hK : K.negOne = -1) (ρ₁
   · exact s₁.trans s₂.symm
   · exact s₁.trans s₂.symm
 
+/-! ## 7. Non-vacuity: a depth-5 expression with `rotate_axis`, a `gamma=` boost and `to_beta3` over mixed storages -/
+
+/-- `v₀ = (x, y, z, t) = (1, 1, 1, 3)` (object, generic flavor); `v₁ = (ρ, φ, η, τ) = (2, 0, arsinh ½, 2)` (object,
+momentum), the point `(2, 0, 1, 3)`; the others: a NumPy 3D vector `(ρ, φ, z) = (3, 0, 4)`, the point `(3, 0, 4)` -/
+noncomputable def exEnvF : Nat → Vec ℝ
+  | 0 => C11M.V4 .obj false .xy .z .t 1 1 1 3
+  | 1 => C11M.V4 .obj true .rhophi .eta .tau 2 0 (arsinh (1 / 2)) 2
+  | _ => C11M.V3 .np false .rhophi .z 3 0 4
+
+/-- the same three points, all stored as Cartesian object vectors -/
+noncomputable def exEnvF' : Nat → Vec ℝ
+  | 0 => C11M.V4 .obj false .xy .z .t 1 1 1 3
+  | 1 => C11M.V4 .obj false .xy .z .t 2 0 1 3
+  | _ => C11M.V3 .obj false .xy .z 3 0 4
+
+def exSpecF : Nat → List ℝ
+  | 0 => [1, 1, 1, 3]
+  | 1 => [2, 0, 1, 3]
+  | _ => [3, 0, 4]
+
+/-- `(v₀ + v₁).rotate_axis(v₂, π).boostZ(gamma=5/4).to_beta3()` -/
+noncomputable def exF : F :=
+  .to_beta3 (.boostZg (5 / 4) (.rotate_axis π (.add (.var 0) (.var 1)) (.var 2)))
+
+theorem exEnvF_good : ∀ i, Good (exEnvF i) := by
+  intro i
+  have hpi := pi_pos
+  match i with
+  | 0 => exact good_of4 (good4_mk _ _ _ _ _ _ _ _ _ trivial trivial trivial trivial)
+  | 1 =>
+    exact good_of4 (good4_mk _ _ _ _ _ _ _ _ _ ⟨by norm_num, by linarith, by linarith⟩ trivial
+      (show (0 : ℝ) ≤ 2 by norm_num) trivial)
+  | (n + 2) => exact good_of3 (good3_mk _ _ _ _ _ _ _ ⟨by norm_num, by linarith, by linarith⟩ trivial trivial)
+
+theorem exEnvF'_good : ∀ i, Good (exEnvF' i) := by
+  intro i
+  match i with
+  | 0 => exact good_of4 (good4_mk _ _ _ _ _ _ _ _ _ trivial trivial trivial trivial)
+  | 1 => exact good_of4 (good4_mk _ _ _ _ _ _ _ _ _ trivial trivial trivial trivial)
+  | (n + 2) => exact good_of3 (good3_mk _ _ _ _ _ _ _ trivial trivial trivial)
+
+theorem exEnvF_denote : ∀ i, denote (exEnvF i) = some (exSpecF i) := by
+  intro i
+  match i with
+  | 0 => rfl
+  | 1 =>
+    have h9 : sqrt ((2 : ℝ) ^ 2 + ((2 * 1) ^ 2 + (2 * 0) ^ 2 + (2 * (1 / 2)) ^ 2)) = 3 := by
+      rw [show (2 : ℝ) ^ 2 + ((2 * 1) ^ 2 + (2 * 0) ^ 2 + (2 * (1 / 2)) ^ 2) = 3 ^ 2 by norm_num]
+      exact sqrt_sq (by norm_num)
+    simp only [exEnvF, exSpecF, denote, xOf, yOf, zOf, tOf, mag2Of, rhoOf, cos_zero, sin_zero, sinh_arsinh, h9]
+    norm_num
+  | (n + 2) =>
+    simp only [exEnvF, exSpecF, denote, xOf, yOf, zOf, cos_zero, sin_zero, mul_one, mul_zero]
+
+theorem exEnvF'_denote : ∀ i, denote (exEnvF' i) = some (exSpecF i) := by
+  intro i
+  match i with
+  | 0 => rfl
+  | 1 => rfl
+  | (n + 2) => rfl
+
+theorem sqrt25 : sqrt ((3 : ℝ) ^ 2 + 0 ^ 2 + 4 ^ 2) = 5 := by
+  rw [show (3 : ℝ) ^ 2 + 0 ^ 2 + 4 ^ 2 = 5 ^ 2 by norm_num]
+  exact sqrt_sq (by norm_num)
+
+theorem bgam54 : P.copysign (sqrt (|(5 / 4 : ℝ)| ^ 2 - 1)) (5 / 4) = 3 / 4 := by
+  have h : |(5 / 4 : ℝ)| ^ 2 - 1 = (3 / 4) ^ 2 := by rw [abs_of_pos (by norm_num)]; norm_num
+  rw [h, sqrt_sq (by norm_num)]
+  simp only [P.copysign]
+  rw [if_pos (by norm_num), abs_of_pos (by norm_num)]
+
+/-- the specified value of the boosted, rotated sum (before `to_beta3`): the rotation by `π` about `(3, 0, 4)` maps
+`(3, 1, 2)` to `(27/25, -1, 86/25)`; the boost with `γ = 5/4`, `βγ = 3/4` gives `z = 44/5`, `t = 252/25` -/
+theorem exF_value : evalSF exSpecF (.boostZg (5 / 4) (.rotate_axis π (.add (.var 0) (.var 1)) (.var 2))) =
+    [27 / 25, -1, 44 / 5, 252 / 25] := by
+  simp only [evalSF, exSpecF, List.zipWith_cons_cons, List.zipWith_nil_right, axisRotL, onSpatial, axisRot, Spec10.rod,
+    sqrt25, cos_pi, sin_pi, on4, l4, bZγ, lorentz_boostZ_gamma.eval, lorentz_boostZ_gamma.xy_z_t, bgam54,
+    abs_of_pos (show (0 : ℝ) < 5 / 4 by norm_num)]
+  norm_num
+
+/-- **`GenericAllF` is satisfiable** for the depth-5 expression `exF` over the mixed-storage environment -/
+theorem exF_generic : GenericAllF exSpecF exF := by
+  simp only [exF, GenericAllF, evalSF, exSpecF, List.zipWith_cons_cons, List.zipWith_nil_right, axisRotL, onSpatial,
+    axisRot, Spec10.rod, sqrt25, cos_pi, sin_pi, on4, l4, bZγ, lorentz_boostZ_gamma.eval, lorentz_boostZ_gamma.xy_z_t,
+    bgam54, abs_of_pos (show (0 : ℝ) < 5 / 4 by norm_num), beta3L, generic_iff3, generic_iff4, List.length_cons,
+    List.length_nil]
+  norm_num
+
+example (K : Consts ℝ) (A : Arith ℝ) (hK : K.negOne = -1) :
+    ∃ v, evalMF K A exEnvF exF = .ok v ∧ Good v ∧ denote v = some (evalSF exSpecF exF) :=
+  c01f_eval K A hK exEnvF exSpecF exEnvF_good exEnvF_denote exF exF_generic
+
+/-- the mixed-storage run and the all-Cartesian run of `exF` denote the same point -/
+example (K : Consts ℝ) (A : Arith ℝ) (hK : K.negOne = -1) :
+    ∃ v₁ v₂, evalMF K A exEnvF exF = .ok v₁ ∧ evalMF K A exEnvF' exF = .ok v₂ ∧ denote v₁ = denote v₂ := by
+  have hs : specEnv exEnvF = exSpecF := by
+    funext i; simp only [specEnv, exEnvF_denote i, Option.getD_some]
+  obtain ⟨v₁, v₂, e₁, e₂, h, -⟩ := c01f_indep K A hK exEnvF exEnvF' exEnvF_good exEnvF'_good
+    (fun i => by rw [exEnvF_denote, exEnvF'_denote]) exF (hs ▸ exF_generic)
+  exact ⟨v₁, v₂, e₁, e₂, h⟩
+
 end C01F
 end VR
